@@ -7,7 +7,7 @@ from fractions import Fraction
 
 from .. import dag, effects as E, literature as lit
 from ..arr import Arr
-from ..pe import PE, Obj, PERaise, Opaque
+from ..pe import PE, Obj, PERaise, Opaque, named_arguments
 from ..series import valuation_at_least
 from ..src import load
 
@@ -614,7 +614,7 @@ def _coupling_consistency(chk, src):
     ks = [dag.sym("kc2"), dag.sym("kb2"), dag.sym("kt2")]
 
     def m_coupl(p, a, k):
-        built.append(dict(k))
+        built.append(named_arguments(k))
         return "SC"
 
     pe.overrides["eko.couplings.Couplings"] = m_coupl
